@@ -115,6 +115,15 @@ class Flow:
             return None
         tr = self.tr
         if isinstance(e, ast.Attribute):
+            # a deep copy / clone of the instance held in a local: what is read on the copy is a function of what the instance holds,
+            # so it counts as a read of the instance (`new = copy.deepcopy(self); new.update(...); new.dndm` reads `dndm`)
+            if isinstance(e.value, ast.Name) and e.value.id in getattr(self, "copies", ()):
+                if e.attr == getattr(self, "current", None):
+                    return None            # the quantity being defined, asked of a copy with other parameters: not a read of itself
+                t = self.self_attr(e.attr, e)
+                if t is not None:
+                    return t
+                return None
             if isinstance(e.value, ast.Name) and e.value.id == "self":
                 t = self.self_attr(e.attr, e)
                 if t is not None:
@@ -141,7 +150,8 @@ class Flow:
                     and f.attr in tr.all_methods[self.cls] and self.self_attr(f.attr, f) is None and depth < 4:
                 owner_m, fn = tr.all_methods[self.cls][f.attr]
                 args = [self.expr(a, depth) for a in e.args] + [self.expr(k.value, depth) for k in e.keywords]
-                inner = Flow(tr, self.cls, owner_m).block(fn.body, depth + 1)
+                sub_ = Flow(tr, self.cls, owner_m); sub_.current = getattr(self, "current", None)
+                inner = sub_.block(fn.body, depth + 1)
                 return self.seq(args + [inner])
             # helper(self, ...): a function of the owner's module handed the instance; its reads through that
             # parameter are the instance's reads
@@ -175,7 +185,8 @@ class Flow:
                     import copy as _copy
                     body = [_R().visit(_copy.deepcopy(st)) for st in fn.body]
                     args = [self.expr(a, depth) for a in e.args] + [self.expr(k.value, depth) for k in e.keywords]
-                    return self.seq(args + [Flow(tr, self.cls, self.owner).block(body, depth + 1)])
+                    sub_ = Flow(tr, self.cls, self.owner); sub_.current = getattr(self, "current", None)
+                    return self.seq(args + [sub_.block(body, depth + 1)])
             parts = [self.expr(f, depth)] + [self.expr(a, depth) for a in e.args] + [self.expr(k.value, depth) for k in e.keywords]
             return self.seq(parts)
         if isinstance(e, ast.BoolOp):
@@ -216,6 +227,12 @@ class Flow:
                 parts.append(self.expr(s.value, depth))
             elif isinstance(s, (ast.Assign, ast.AugAssign, ast.AnnAssign)):
                 tgts = s.targets if isinstance(s, ast.Assign) else [s.target]
+                v_ = s.value
+                if isinstance(v_, ast.Call) and len(tgts) == 1 and isinstance(tgts[0], ast.Name):
+                    fsrc = ast.unparse(v_.func)
+                    if (fsrc in ("copy.deepcopy", "deepcopy", "copy.copy") and len(v_.args) == 1 and isinstance(v_.args[0], ast.Name) and v_.args[0].id == "self") \
+                            or fsrc == "self.clone":
+                        self.copies = set(getattr(self, "copies", ())) | {tgts[0].id}
                 for t in tgts:
                     for n in ast.walk(t):
                         if isinstance(n, ast.Attribute) and isinstance(n.value, ast.Name) and n.value.id == "self" and isinstance(n.ctx, ast.Store):
@@ -301,7 +318,8 @@ class Translator:
         n0 = (len(self.plain_attr), len(self.self_writes))
         for o in self.mro[cls]:
             for n, fn in sorted(self.infos[o].quants.items()):
-                tm = Flow(self, cls, o).block(fn.body) or ("c", 0)
+                fl_ = Flow(self, cls, o); fl_.current = n
+                tm = fl_.block(fn.body) or ("c", 0)
                 d["bodies"].append({"owner": o, "name": n, "tm": tm})
         # validate chain: most-derived validate; super().validate() inlined
         d["validate"] = self.validate_tm(cls, 0) or ("c", 0)
